@@ -91,6 +91,12 @@ def run(ctx):
              ('shoc_standard', dict(nj=3, ni=3, holes='corner')), ('shoc_standard', dict(nj=2, ni=3, invalid=True)),
              ('ugrid', dict(w=3, h=3)), ('ugrid', dict(w=2, h=2, invalid=True))]
     datasets = [gen.any_dataset(rng, f, **kw) for f, kw in fixed]
+    # cells that do not share whole edges: a mesh with a hanging node (one tall cell beside two short ones), and stored
+    # bounds that overlap their neighbours
+    hang_nodes = [(0, 0), (64, 0), (64, 128), (0, 128), (128, 0), (128, 64), (64, 64), (128, 128)]
+    hang_faces = [[0, 1, 2, 3], [1, 4, 5, 6], [6, 5, 7, 2]]
+    datasets.append(gen.ugrid(rng, mesh=(hang_nodes, hang_faces), invalid=False, supplied=set()))
+    datasets.append(gen.cf2d(rng, ny=3, nx=3, bounds=True, holes='none', invalid=False, overlap=True))
     while len(datasets) < n_ds:
         datasets.append(gen.any_dataset(rng))
     exprs = [f'(option_map observe {pm.raw_expr(d)})' for d in datasets]
